@@ -14,6 +14,7 @@ import (
 	"fmt"
 	"io"
 	"sort"
+	"strconv"
 	"strings"
 
 	"pault.ag/go/debian/deb"
@@ -200,6 +201,26 @@ func walkBody(r *rt.Run, img []byte, disk io.ReaderAt, label string, wp *arWalk)
 			}
 			if err != nil {
 				w.end = "error"
+				// a caller that asks again after an error (as one would after a
+				// transient one): whatever is still returned must come from a header
+				// position of this input - the chain of headers starting at offset 8 -
+				// never from bytes inside a member's data
+				for k := 0; k < 3; k++ {
+					e2, err2 := ar.Next()
+					w.nexts++
+					if err2 != nil || e2 == nil || e2.Data == nil {
+						if err2 == io.EOF {
+							break
+						}
+						continue
+					}
+					r.Probe("member-returned-after-an-error")
+					_, off2, _ := e2.Data.Outer()
+					if !headerChain(img)[int(off2)-60] {
+						r.Violate("C15/member-not-from-a-header", "Next-after-error", "[%s] after Next had failed, a further Next returned member %q (size %d) whose header would lie at offset %d - not a header position of this input (bytes inside a member's data were taken for a header)", label, e2.Name, e2.Size, off2-60)
+						return
+					}
+				}
 				return
 			}
 			w.names = append(w.names, e.Name)
@@ -231,6 +252,23 @@ func walkBody(r *rt.Run, img []byte, disk io.ReaderAt, label string, wp *arWalk)
 			}
 		}
 	}
+}
+
+// headerChain returns the offsets at which member headers of the input lie:
+// offset 8, then each header's offset plus 60 plus its (even-padded) size, for
+// as long as the size column reads as a number.
+func headerChain(img []byte) map[int]bool {
+	chain := map[int]bool{}
+	off := 8
+	for off+60 <= len(img) {
+		chain[off] = true
+		n, err := strconv.Atoi(strings.TrimSpace(string(img[off+48 : off+58])))
+		if err != nil || n < 0 {
+			break
+		}
+		off += 60 + n + n%2
+	}
+	return chain
 }
 
 type debOutcome struct {
@@ -292,13 +330,30 @@ func runC15(r *rt.Run, tier string) {
 	if seqFlavour {
 		r.Probe("reader-with-sequential-state")
 	}
+	// the second time the same bytes may be a window (io.SectionReader) into a
+	// larger device that goes on with further well-formed members: the input ends
+	// where the window ends
+	windowFlavour := !seqFlavour && t.Bool(1, 4, "c15.window")
 	var walks []arWalk
 	for i := 0; i < 2; i++ {
 		disk := simdisk.New(r, "archive", bad)
 		disk.DrawProfile()
-		disk.BeyondEndErr = beyondErr
+		disk.BeyondEndErr = beyondErr && !windowFlavour
 		disk.MaxCalls = 4*len(bad) + 4000
 		var ra io.ReaderAt = disk
+		if windowFlavour && i == 1 {
+			pre := renderAr(genArMembers(t, r, 2))
+			post := renderAr(genArMembers(t, r, 3))[8:]
+			if k := t.Draw(3, "c15.window.gap"); k > 0 {
+				post = append([]byte("\n\n")[:k], post...)
+			}
+			big := append(append(append([]byte{}, pre...), bad...), post...)
+			dev := simdisk.New(r, "device", big)
+			dev.DrawProfile()
+			dev.MaxCalls = 4*len(big) + 4000
+			ra = io.NewSectionReader(dev, int64(len(pre)), int64(len(bad)))
+			r.Probe("input-is-a-window-into-a-larger-device")
+		}
 		if seqFlavour {
 			// a bytes.Reader-like object (ReaderAt + Read/Seek/Len); between the
 			// loads the caller reads it sequentially (sniffs the magic, or
@@ -453,5 +508,5 @@ func init() {
 		},
 		Assumptions: []string{"inputs are structured corruptions of valid archives and raw bytes drawn from a header-like alphabet; coverage-guided fuzzing (named in the property's quantifier) is a different technique and is not used", "only stored and gzip members are damaged for deb.Load, as the statement excludes the third-party decoders on hostile streams"},
 	})
-	propProbes["C15"] = []string{"package-reloaded-after-double-close", "two-archives-iterated-concurrently", "reader-fails-beyond-the-end-with-a-non-EOF-error", "reader-with-sequential-state", "iteration-ended-in-error", "iteration-ended-in-eof", "damaged-package-still-loads"}
+	propProbes["C15"] = []string{"input-is-a-window-into-a-larger-device", "package-reloaded-after-double-close", "two-archives-iterated-concurrently", "reader-fails-beyond-the-end-with-a-non-EOF-error", "reader-with-sequential-state", "iteration-ended-in-error", "iteration-ended-in-eof", "damaged-package-still-loads"}
 }
